@@ -69,6 +69,19 @@ D2(td, k, l) == LET a == IF k <= l THEN k ELSE l
                 IN 1 + td + ((a - 1) * td - ((a - 1) * (a - 2)) \div 2) + (b - a) + 1
 
 ---------------------------------------------------------------------------
+\* magnitudes are rounded *up* onto a coarse grid after every operation (a bound stays a bound;
+\* keeps them far away from 32 bits)
+Grid(x, g) == Norm(((x[1] * g) \div x[2]) + 1, g)
+Up(x) == IF x[1] = 0 THEN Zero
+         ELSE IF x[2] = 1 THEN x
+         ELSE IF x[1] \div x[2] >= 256 THEN <<(x[1] \div x[2]) + 1, 1>>
+         ELSE IF x[1] \div x[2] >= 1 THEN (IF x[1] < 30000000 THEN Grid(x, 64) ELSE <<(x[1] \div x[2]) + 1, 1>>)
+         ELSE IF x[2] \div x[1] <= 64 THEN (IF x[1] < 500000 THEN Grid(x, 4096) ELSE <<1, 1>>)
+         ELSE IF x[1] < 8000 THEN Grid(x, 262144) ELSE <<1, 64>>
+MAdd(a, b) == Up(RAdd(a, b))
+MMul(a, b) == Up(RMul(a, b))
+
+---------------------------------------------------------------------------
 (* One part of one case *)
 PartTensor(P, C, cs, part) ==
   LET cell == P.cell  td == P.tdim  gd == P.gdim
@@ -99,6 +112,29 @@ PartTensor(P, C, cs, part) ==
                 IF td = 0 THEN <<>>
                 ELSE IF td = gd THEN Inverse(Jac[s][q])
                 ELSE MatMul(Inverse(Gram(Jac[s][q])), MatT(Jac[s][q]))]]       \* td x gd
+      \* Magnitudes for the rounding-error bound (never used for the value).  The kernel computes
+      \* J, det J and K in floating point with cancellation, so the error of a quantity that is exactly
+      \* zero is proportional to the magnitudes that went into it, not to its value:
+      \*   JacM_ck = sum_n |x_nc| |d_k phi_n|   (>= |J_ck|)
+      \*   PJ      = prod_k max(1, sum_c JacM_ck) (>= |det J|, and >= every cofactor)
+      \*   KbM     = PJ / |det J|                 (>= |K_kd|; squared on manifolds: K = (J^T J)^-1 J^T)
+      \*   Amp     = max_q PJ / |det J| >= 1      scales the tolerance (relative error of 1 / det J)
+      JacM == [s \in 1..nsides |-> [q \in 1..NQ |-> [c \in 1..gd |-> [k \in 1..td |->
+                LET F(n) == RAbs(RMul(XD(s, n, c), R(xtab[s][D1(k)][q][n][1]))) IN Up(RSumTo(F, nxn))]]]]
+      RMax(a, b) == IF RLt(a, b) THEN b ELSE a
+      PJ == [s \in 1..nsides |-> [q \in 1..NQ |->
+               LET RECURSIVE PK(_)
+                   PK(k) == IF k = 0 THEN One
+                            ELSE MMul(PK(k - 1), RMax(One, LET F(c) == JacM[s][q][c][k] IN RSumTo(F, gd)))
+               IN PK(td)]]
+      KbM == [s \in 1..nsides |-> [q \in 1..NQ |->
+               IF td = 0 THEN One
+               ELSE LET r == Up(RDiv(PJ[s][q], RAbs(DetJ[s][q]))) IN IF td = gd THEN r ELSE MMul(r, r)]]
+      Amp == LET RECURSIVE MQ(_, _)
+                 MQ(s, q) == IF s = 0 THEN One
+                             ELSE IF q = 0 THEN MQ(s - 1, NQ)
+                             ELSE RMax(MQ(s, q - 1), Up(RDiv(PJ[s][q], RAbs(DetJ[s][q]))))
+             IN IF td = 0 THEN One ELSE MQ(nsides, NQ)
       \* integration scale factor
       FacetJ(s, q) == LET ax == FacetAxes(cell, C.ent[s] + 1)      \* (td-1) vectors of length td
                       IN [c \in 1..gd |-> [a \in 1..(td - 1) |->
@@ -118,17 +154,21 @@ PartTensor(P, C, cs, part) ==
       NormalOk(s, q) == RIsSquare(Dot(NormalRaw(s, q), NormalRaw(s, q)))
       \* ------------------------------------------------------------------
       \* value of (derivative dv of component comp of) basis function i of space sp at (s, q)
-      Basis(spn, s, q, i, comp, dv) ==
+      \* `ab` = TRUE evaluates the same expression with every factor replaced by its absolute value:
+      \* the magnitude the rounding error of the kernel's evaluation is proportional to
+      Basis(spn, s, q, i, comp, dv, ab) ==
         LET sp == P.spaces[spn]
             sd == DofSub(sp, i)  sub == sp.subs[sd]
             loc == i - sub.off  node == (loc \div sub.bs) + 1  blk == loc % sub.bs
             cm == sp.cmap[comp + 1]                         \* <<sub, block, raw value component>>
             tb == part.tabs[sub.tab][s]
-            K == Kinv[s][q]  J == Jac[s][q]
+            A(x) == IF ab THEN RAbs(x) ELSE x
+            K == IF ab THEN [k \in 1..td |-> [d \in 1..gd |-> KbM[s][q]]] ELSE Kinv[s][q]
+            J == IF ab THEN JacM[s][q] ELSE Jac[s][q]
             \* reference value / derivatives of raw component vc (1-based) of this node
-            Ref0(vc) == R(tb[1][q][node][vc])
-            RefG(vc, d) == LET F(k) == RMul(K[k][d], R(tb[D1(k)][q][node][vc])) IN RSumTo(F, td)
-            RefH(vc, d1, d2) == LET F(k) == LET G(l) == RMul(RMul(K[k][d1], K[l][d2]), R(tb[D2(td, k, l)][q][node][vc]))
+            Ref0(vc) == A(R(tb[1][q][node][vc]))
+            RefG(vc, d) == LET F(k) == RMul(A(K[k][d]), A(R(tb[D1(k)][q][node][vc]))) IN RSumTo(F, td)
+            RefH(vc, d1, d2) == LET F(k) == LET G(l) == RMul(RMul(A(K[k][d1]), A(K[l][d2])), A(R(tb[D2(td, k, l)][q][node][vc])))
                                             IN RSumTo(G, td)
                                 IN RSumTo(F, td)
             RefAny(vc) == IF Len(dv) = 0 THEN Ref0(vc)
@@ -137,17 +177,20 @@ PartTensor(P, C, cs, part) ==
         IN IF cm[1] # sd THEN Zero
            ELSE IF sub.map = "identity" THEN (IF cm[2] # blk THEN Zero ELSE RefAny(cm[3] + 1))
            ELSE IF sub.map = "covariantPiola"
-                THEN LET F(a) == RMul(K[a][cm[3] + 1], RefAny(a)) IN RSumTo(F, td)
+                THEN LET F(a) == RMul(A(K[a][cm[3] + 1]), RefAny(a)) IN RSumTo(F, td)
            ELSE \* contravariantPiola
-                LET F(a) == RMul(J[cm[3] + 1][a], RefAny(a)) IN RDiv(RSumTo(F, td), DetJ[s][q])
+                LET F(a) == RMul(A(J[cm[3] + 1][a]), RefAny(a)) IN RDiv(RSumTo(F, td), A(DetJ[s][q]))
       Side(r) == IF r = "-" THEN 2 ELSE 1
       \* argument leaves: value for macro dof i (0-based over [+ side dofs, - side dofs])
       ArgDim(n) == P.spaces[P.args[n + 1]].dim
       ArgLeaf(lf, q, i) ==
         LET dim == ArgDim(lf.n)
             s == IF nsides = 2 THEN (i \div dim) + 1 ELSE 1
-        IN IF nsides = 2 /\ s # Side(lf.r) THEN Zero
-           ELSE Basis(P.args[lf.n + 1], s, q, i % dim, lf.c, lf.d)
+        IN IF nsides = 2 /\ s # Side(lf.r) THEN <<Zero, Zero>>
+           ELSE LET v == Basis(P.args[lf.n + 1], s, q, i % dim, lf.c, lf.d, FALSE)
+                IN IF Len(lf.d) = 0 /\ P.spaces[P.args[lf.n + 1]].subs[DofSub(P.spaces[P.args[lf.n + 1]], i % dim)].map = "identity"
+                   THEN <<v, IF v[1] = 0 THEN Zero ELSE Up(RAbs(v))>>
+                   ELSE <<v, Up(Basis(P.args[lf.n + 1], s, q, i % dim, lf.c, lf.d, TRUE))>>
       AL == [a \in 1..Len(part.aleaves) |-> [q \in 1..NQ |->
                [i \in 0..(nsides * ArgDim(part.aleaves[a].n) - 1) |-> ArgLeaf(part.aleaves[a], q, i)]]]
       \* coefficient leaves: complex value at q
@@ -155,10 +198,13 @@ PartTensor(P, C, cs, part) ==
         LET spn == P.coefs[lf.k + 1]  dim == P.spaces[spn].dim  s == Side(lf.r)
             wv == cs.w[lf.k + 1][s]
             RECURSIVE Acc(_)
-            Acc(i) == IF i = 0 THEN CZero
-                      ELSE LET wi == wv[i]
-                           IN IF wi[1] = 0 /\ wi[2] = 0 THEN Acc(i - 1)
-                              ELSE CAdd(Acc(i - 1), CScale(Basis(spn, s, q, i - 1, lf.c, lf.d), <<RInt(wi[1]), RInt(wi[2])>>))
+            Acc(i) == IF i = 0 THEN <<CZero, Zero>>
+                      ELSE LET wi == wv[i]  h == Acc(i - 1)
+                           IN IF wi[1] = 0 /\ wi[2] = 0 THEN h
+                              ELSE LET b == Basis(spn, s, q, i - 1, lf.c, lf.d, FALSE)
+                                       bm == Basis(spn, s, q, i - 1, lf.c, lf.d, TRUE)
+                                       z == <<RInt(wi[1]), RInt(wi[2])>>
+                                   IN <<CAdd(h[1], CScale(b, z)), MAdd(h[2], MMul(bm, CMag(z)))>>
         IN Acc(dim)
       CL == [a \in 1..Len(part.cleaves) |-> [q \in 1..NQ |-> CoefLeaf(part.cleaves[a], q)]]
       \* ------------------------------------------------------------------
@@ -167,7 +213,7 @@ PartTensor(P, C, cs, part) ==
       RECURSIVE EvAll(_, _, _, _, _)
       RECURSIVE Cond(_, _, _, _)
       EvAll(ts, k, q, i, j) == IF k = 0 THEN <<>> ELSE Append(EvAll(ts, k - 1, q, i, j), Ev(ts[k], q, i, j))
-      Leaf(v) == <<v, CMag(v)>>
+      Leaf(v) == <<v, IF CIsZero(v) THEN Zero ELSE Up(CMag(v))>>
       Cond(t, q, i, j) ==
         IF t.t = "and" THEN Cond(t.a, q, i, j) /\ Cond(t.b, q, i, j)
         ELSE IF t.t = "or" THEN Cond(t.a, q, i, j) \/ Cond(t.b, q, i, j)
@@ -181,17 +227,17 @@ PartTensor(P, C, cs, part) ==
                                 RECURSIVE SA(_)
                                 SA(k) == IF k = 0 THEN <<CZero, Zero>>
                                          ELSE LET h == SA(k - 1)
-                                              IN <<CAdd(h[1], vs[k][1]), RAdd(h[2], vs[k][2])>>
+                                              IN <<CAdd(h[1], vs[k][1]), MAdd(h[2], vs[k][2])>>
                             IN SA(Len(vs))
           [] t.t = "prod" -> LET RECURSIVE PA(_)
                                  PA(k) == IF k = 0 THEN <<COne, One>>
                                           ELSE LET h == PA(k - 1)
                                                IN IF CIsZero(h[1]) /\ h[2][1] = 0 THEN h
                                                   ELSE LET v == Ev(t.a[k], q, i, j)
-                                                       IN <<CMul(h[1], v[1]), RMul(h[2], v[2])>>
+                                                       IN <<CMul(h[1], v[1]), MMul(h[2], v[2])>>
                              IN PA(Len(t.a))
           [] t.t = "div" -> LET a == Ev(t.a, q, i, j)  b == Ev(t.b, q, i, j)
-                            IN <<CDiv(a[1], b[1]), RDiv(a[2], CMag(b[1]))>>
+                            IN <<CDiv(a[1], b[1]), Up(RDiv(a[2], CMag(b[1])))>>
           [] t.t = "pow" -> LET a == Ev(t.a, q, i, j) IN Leaf(CPow(a[1], t.e))
           [] t.t = "abs" -> LET a == Ev(t.a, q, i, j)[1] IN Leaf(CReal(RSqrt(CAbs2(a))))
           [] t.t = "sqrt" -> LET a == Ev(t.a, q, i, j)[1] IN Leaf(CReal(RSqrt(a[1])))
@@ -203,20 +249,39 @@ PartTensor(P, C, cs, part) ==
                             IN IF RLt(a[1][1], b[1][1]) THEN b ELSE a
           [] t.t = "min" -> LET a == Ev(t.a, q, i, j)  b == Ev(t.b, q, i, j)
                             IN IF RLt(b[1][1], a[1][1]) THEN b ELSE a
-          [] t.t = "al" -> Leaf(CReal(AL[t.id][q][IF part.aleaves[t.id].n = 0 THEN i ELSE j]))
-          [] t.t = "cl" -> Leaf(CL[t.id][q])
+          [] t.t = "al" -> LET v == AL[t.id][q][IF part.aleaves[t.id].n = 0 THEN i ELSE j] IN <<CReal(v[1]), v[2]>>
+          [] t.t = "cl" -> CL[t.id][q]
           [] t.t = "const" -> Leaf(<<RInt(cs.c[t.k + 1][t.c + 1][1]), RInt(cs.c[t.k + 1][t.c + 1][2])>>)
-          [] t.t = "x" -> Leaf(CReal(Xphys[Side(t.r)][q][t.c + 1]))
-          [] t.t = "n" -> Leaf(CReal(Normal(Side(t.r), q)[t.c + 1]))
+          [] t.t = "x" -> LET s == Side(t.r)
+                              F(n) == RAbs(RMul(XD(s, n, t.c + 1), R(xtab[s][1][q][n][1])))
+                          IN <<CReal(Xphys[s][q][t.c + 1]), Up(RSumTo(F, nxn))>>
+          [] t.t = "n" -> <<CReal(Normal(Side(t.r), q)[t.c + 1]), One>>
           [] t.t = "detJ" -> Leaf(CReal(DetJ[Side(t.r)][q]))
           [] t.t = "J" -> Leaf(CReal(Jac[Side(t.r)][q][t.c + 1][t.k + 1]))
           [] t.t = "K" -> Leaf(CReal(Kinv[Side(t.r)][q][t.c + 1][t.k + 1]))
+      \* a comparison evaluated exactly on its threshold is decided by rounding in the kernel:
+      \* such cases are outside what "up to floating-point rounding" can settle (skipped, counted)
+      RECURSIVE Knife(_, _)
+      Knife(t, q) ==
+        CASE t.t \in {"lt", "le", "gt", "ge", "eq", "ne"} ->
+               (Ev(t.a, q, 0, 0)[1] = Ev(t.b, q, 0, 0)[1]) \/ Knife(t.a, q) \/ Knife(t.b, q)
+          [] t.t \in {"and", "or"} -> Knife(t.a, q) \/ Knife(t.b, q)
+          [] t.t = "not" -> Knife(t.a, q)
+          [] t.t = "cond" -> Knife(t.c, q) \/ Knife(t.a, q) \/ Knife(t.b, q)
+          [] t.t \in {"sum", "prod"} -> \E k \in 1..Len(t.a) : Knife(t.a[k], q)
+          [] t.t \in {"div", "max", "min"} -> Knife(t.a, q) \/ Knife(t.b, q)
+          [] t.t \in {"pow", "abs", "sqrt", "conj", "real", "imag"} -> Knife(t.a, q)
+          [] OTHER -> FALSE
       \* which square roots must be rational for this case to be inside the model
       NeedsNormal == part.uses_normal
       InRange == /\ \A q \in 1..NQ : ScaleOk(q)
                  /\ NeedsNormal => \A s \in 1..nsides, q \in 1..NQ : NormalOk(s, q)
                  /\ \A s \in 1..nsides, q \in 1..NQ : DetJ[s][q][1] # 0
+                 /\ part.has_cond => \A q \in 1..NQ : ~Knife(part.tree, q)
       WQ == [q \in 1..NQ |-> RMul(R(part.wts[q]), Scale(q))]
+      WQM == [q \in 1..NQ |-> Up(RMul(RAbs(R(part.wts[q])),
+                IF itype = "cell" THEN PJ[1][q]
+                ELSE IF itype = "vertex" \/ td = 1 THEN One ELSE RMul(RInt(td), PJ[1][q])))]
       n0 == IF P.rank >= 1 THEN nsides * ArgDim(0) ELSE 1
       n1 == IF P.rank >= 2 /\ ~P.diagonal THEN nsides * ArgDim(1) ELSE 1
       Entry(i, j) ==
@@ -226,11 +291,11 @@ PartTensor(P, C, cs, part) ==
                      ELSE LET e == Ev(part.tree, q, i, jj)
                               wq == WQ[q]
                               h == QA(q - 1)
-                          IN <<CAdd(h[1], CScale(wq, e[1])), RAdd(h[2], RMul(RAbs(wq), e[2]))>>
+                          IN <<CAdd(h[1], CScale(wq, e[1])), MAdd(h[2], MMul(WQM[q], e[2]))>>
         IN QA(NQ)
   IN IF ~PointsAgree THEN <<"points-disagree">>
      ELSE IF ~InRange THEN <<"out-of-range">>
-     ELSE <<"ok", [i \in 0..(n0 - 1) |-> [j \in 0..(n1 - 1) |-> Entry(i, j)]]>>
+     ELSE <<"ok", [i \in 0..(n0 - 1) |-> [j \in 0..(n1 - 1) |-> Entry(i, j)]], Amp>>
 
 CaseTensor(c) ==
   LET cs == D.cases[c]  C == D.confs[cs.conf]  P == D.progs[C.prog]
@@ -241,8 +306,11 @@ CaseTensor(c) ==
               RECURSIVE Acc(_, _, _)
               Acc(k, i, j) == IF k = 0 THEN <<CZero, Zero>>
                               ELSE LET h == Acc(k - 1, i, j)  e == parts[k][2][i][j]
-                                   IN <<CAdd(h[1], e[1]), RAdd(h[2], e[2])>>
-          IN <<"ok", [i \in DOMAIN t1 |-> [j \in DOMAIN t1[i] |-> Acc(Len(parts), i, j)]]>>
+                                   IN <<CAdd(h[1], e[1]), MAdd(h[2], e[2])>>
+              RECURSIVE AmpAll(_)
+              AmpAll(k) == IF k = 0 THEN One
+                           ELSE LET h == AmpAll(k - 1) IN IF RLt(h, parts[k][3]) THEN parts[k][3] ELSE h
+          IN <<"ok", [i \in DOMAIN t1 |-> [j \in DOMAIN t1[i] |-> Acc(Len(parts), i, j)]], AmpAll(Len(parts))>>
 
 ---------------------------------------------------------------------------
 VARIABLES cid, done
